@@ -196,3 +196,322 @@ pub fn with_alloc_watch<T>(f: impl FnOnce() -> T) -> (T, usize) {
     let m = MAX_ALLOC.with(|m| m.get());
     (r, m)
 }
+
+// ---------------------------------------------------------------------------------------
+// NetSim: N real nodes on mock socket / device / clock; the harness owns the network.
+
+use std::collections::{BTreeMap, VecDeque};
+use std::net::SocketAddr;
+use vpncloud::cloud::GenericCloud;
+use vpncloud::config::Config;
+use vpncloud::device::MockDevice;
+use vpncloud::net::MockSocket;
+use vpncloud::payload::Protocol;
+
+pub type Node<P> = GenericCloud<MockDevice, P, MockSocket, MockTimeSource>;
+
+#[derive(Clone, Debug)]
+pub struct Datagram {
+    pub id: u64,
+    pub sent_at: i64,
+    pub deliver_at: i64,
+    pub src: SocketAddr,
+    pub dst: SocketAddr,
+    pub data: Vec<u8>,
+}
+
+pub struct SimNode<P: Protocol> {
+    pub addr: SocketAddr,
+    pub node: Node<P>,
+    /// long-lived receive buffer, as in `run()` (stale bytes stay behind each datagram)
+    pub buf: Box<MsgBuffer>,
+    pub dead: bool,
+}
+
+/// what the network does with a datagram: list of delivery delays in seconds
+/// (empty = lost, [0] = delivered in order, [0, 0] = duplicated, [k] = delayed by k seconds)
+pub type Policy = Box<dyn FnMut(&Datagram) -> Vec<i64>>;
+/// address rewriting (hair-pin / port forwarding): (src, dst) -> (src', dst')
+pub type Rewrite = Box<dyn FnMut(SocketAddr, SocketAddr) -> (SocketAddr, SocketAddr)>;
+
+pub struct NetSim<P: Protocol> {
+    pub nodes: Vec<SimNode<P>>,
+    pub index: BTreeMap<SocketAddr, usize>,
+    pub now: i64,
+    pub inflight: VecDeque<Datagram>,
+    pub delayed: Vec<Datagram>,
+    pub record: bool,
+    pub wire_log: Vec<Datagram>,
+    pub panics: Vec<(usize, PanicInfo, String)>,
+    pub housekeep_errors: Vec<(usize, i64, String)>,
+    pub policy: Option<Policy>,
+    pub rewrite: Option<Rewrite>,
+    pub next_id: u64,
+    pub delivered: u64,
+    pub lost_unknown_dst: u64,
+}
+
+pub fn sim_addr(n: usize) -> SocketAddr {
+    format!("[fd00::{:x}]:{}", n + 1, 3210 + n).parse().unwrap()
+}
+
+pub fn base_config() -> Config {
+    let mut c = Config::default();
+    c.crypto.password = Some("test123".to_string());
+    c
+}
+
+impl<P: Protocol> NetSim<P> {
+    pub fn new() -> Self {
+        MockTimeSource::set_time(T0);
+        NetSim {
+            nodes: vec![],
+            index: BTreeMap::new(),
+            now: T0,
+            inflight: VecDeque::new(),
+            delayed: vec![],
+            record: false,
+            wire_log: vec![],
+            panics: vec![],
+            housekeep_errors: vec![],
+            policy: None,
+            rewrite: None,
+            next_id: 0,
+            delivered: 0,
+            lost_unknown_dst: 0,
+        }
+    }
+
+    pub fn add_node(&mut self, config: &Config, nat: bool) -> usize {
+        let n = self.nodes.len();
+        self.add_node_at(config, nat, sim_addr(n))
+    }
+
+    pub fn add_node_at(&mut self, config: &Config, nat: bool, addr: SocketAddr) -> usize {
+        let n = self.nodes.len();
+        let mut config = config.clone();
+        config.listen = addr.to_string();
+        MockSocket::set_nat(nat);
+        let node = Node::<P>::new(&config, MockSocket::new(addr), MockDevice::new(), None, None);
+        MockSocket::set_nat(false);
+        self.nodes.push(SimNode { addr, node, buf: new_buf(), dead: false });
+        self.index.insert(addr, n);
+        n
+    }
+
+    pub fn addr(&self, i: usize) -> SocketAddr {
+        self.nodes[i].addr
+    }
+
+    /// moves everything node i has sent into the network
+    pub fn flush(&mut self, i: usize) {
+        let src0 = self.nodes[i].addr;
+        while let Some((dst0, data)) = self.nodes[i].node.verif_socket().pop_outbound() {
+            let (src, dst) = match self.rewrite.as_mut() {
+                Some(rw) => rw(src0, dst0),
+                None => (src0, dst0),
+            };
+            let mut d = Datagram { id: self.next_id, sent_at: self.now, deliver_at: self.now, src, dst, data };
+            self.next_id += 1;
+            if self.record {
+                self.wire_log.push(d.clone());
+            }
+            let fates = match self.policy.as_mut() {
+                Some(p) => p(&d),
+                None => vec![0],
+            };
+            for delay in fates {
+                d.deliver_at = self.now + delay;
+                if delay <= 0 {
+                    self.inflight.push_back(d.clone());
+                } else {
+                    self.delayed.push(d.clone());
+                }
+            }
+        }
+    }
+
+    /// hands one datagram to its destination node (socket event under panic capture)
+    pub fn deliver(&mut self, d: Datagram) -> bool {
+        let i = match self.index.get(&d.dst) {
+            Some(i) => *i,
+            None => {
+                self.lost_unknown_dst += 1;
+                return false;
+            }
+        };
+        self.deliver_to(i, d.src, d.data)
+    }
+
+    pub fn deliver_to(&mut self, i: usize, src: SocketAddr, data: Vec<u8>) -> bool {
+        if self.nodes[i].dead {
+            return false;
+        }
+        let n = &mut self.nodes[i];
+        if !n.node.verif_socket().put_inbound(src, data.clone()) {
+            return false; // filtered by the NAT model of the mock socket
+        }
+        let r = catch(|| n.node.verif_socket_event(&mut n.buf));
+        if let Err(p) = r {
+            n.dead = true;
+            self.panics.push((i, p, format!("socket event: {} bytes from {}: {}", data.len(), src, crate::engine::hex(&data[..data.len().min(64)]))));
+            return false;
+        }
+        self.delivered += 1;
+        self.flush(i);
+        true
+    }
+
+    /// delivers in-flight datagrams in FIFO order until the network is quiet
+    pub fn settle(&mut self) {
+        let mut guard = 0;
+        while let Some(d) = self.inflight.pop_front() {
+            self.deliver(d);
+            guard += 1;
+            if guard > 200_000 {
+                break;
+            }
+        }
+    }
+
+    pub fn housekeep(&mut self, i: usize) {
+        if self.nodes[i].dead {
+            return;
+        }
+        let n = &mut self.nodes[i];
+        match catch(|| n.node.verif_housekeep()) {
+            Err(p) => {
+                n.dead = true;
+                self.panics.push((i, p, format!("housekeep at t={}", self.now)));
+            }
+            Ok(Err(e)) => self.housekeep_errors.push((i, self.now, e.to_string())),
+            Ok(Ok(())) => {}
+        }
+        self.flush(i);
+    }
+
+    /// one simulated second: clock +1, delayed datagrams that are due, housekeeping of every node, settle
+    pub fn tick(&mut self) {
+        self.now += 1;
+        MockTimeSource::set_time(self.now);
+        let now = self.now;
+        let mut due: Vec<Datagram> = vec![];
+        self.delayed.retain(|d| {
+            if d.deliver_at <= now {
+                due.push(d.clone());
+                false
+            } else {
+                true
+            }
+        });
+        due.sort_by_key(|d| (d.deliver_at, d.id));
+        for d in due {
+            self.inflight.push_back(d);
+        }
+        self.settle();
+        for i in 0..self.nodes.len() {
+            self.housekeep(i);
+        }
+        self.settle();
+    }
+
+    pub fn run(&mut self, seconds: i64) {
+        for _ in 0..seconds {
+            self.tick();
+        }
+    }
+
+    pub fn connect(&mut self, i: usize, to: SocketAddr) {
+        let n = &mut self.nodes[i];
+        let _ = catch(|| n.node.connect(to));
+        self.flush(i);
+    }
+
+    /// configured peer, exactly as `run()` does it: connect + add_reconnect_peer
+    pub fn configure_peer(&mut self, i: usize, to: SocketAddr) {
+        let n = &mut self.nodes[i];
+        let s = to.to_string();
+        let _ = catch(|| {
+            let _ = n.node.connect(&s as &str);
+            n.node.add_reconnect_peer(s.clone());
+        });
+        self.flush(i);
+    }
+
+    /// frame/packet read from the interface of node i
+    pub fn put_payload(&mut self, i: usize, data: Vec<u8>) {
+        if self.nodes[i].dead {
+            return;
+        }
+        let n = &mut self.nodes[i];
+        n.node.verif_device().put_inbound(data);
+        let mut buf = new_buf();
+        if let Err(p) = catch(|| n.node.verif_device_event(&mut buf)) {
+            n.dead = true;
+            self.panics.push((i, p, "device event".to_string()));
+        }
+        self.flush(i);
+    }
+
+    /// everything node i wrote to its interface since the last call
+    pub fn take_iface(&mut self, i: usize) -> Vec<Vec<u8>> {
+        let mut v = vec![];
+        while let Some(d) = self.nodes[i].node.verif_device().pop_outbound() {
+            v.push(d);
+        }
+        v
+    }
+
+    pub fn is_connected(&self, i: usize, j: usize) -> bool {
+        let a = self.nodes[j].addr;
+        self.nodes[i].node.verif_peers().iter().any(|p| p.addr == a)
+    }
+
+    pub fn all_connected(&self) -> bool {
+        let n = self.nodes.len();
+        (0..n).all(|i| (0..n).all(|j| i == j || self.is_connected(i, j)))
+    }
+
+    /// snapshot of the externally relevant state of node i (peers, pending handshakes, routes, own addresses)
+    pub fn snapshot(&mut self, i: usize) -> String {
+        let n = &mut self.nodes[i];
+        let peers: Vec<String> = n.node.verif_peers().iter().map(|p| format!("{}|{}|{}|{}", p.addr, crate::engine::hex(&p.node_id), p.algorithm, p.has_init)).collect();
+        let pending = n.node.verif_pending();
+        let (claims, cache) = n.node.verif_table().verif_dump();
+        let claims: Vec<String> = claims.iter().map(|(p, r, _)| format!("{}>{}", r, p)).collect();
+        let cache: Vec<String> = cache.iter().map(|(a, p, _)| format!("{}>{}", a, p)).collect();
+        let own = n.node.verif_own_addresses();
+        format!("peers={:?} pending={:?} claims={:?} cache={:?} own={:?}", peers, pending, claims, cache, own)
+    }
+}
+
+impl<P: Protocol> Default for NetSim<P> {
+    fn default() -> Self {
+        Self::new()
+    }
+}
+
+/// An Ethernet frame dst(6) src(6) ethertype payload
+pub fn eth_frame(dst: [u8; 6], src: [u8; 6], vlan: Option<u16>, payload: &[u8]) -> Vec<u8> {
+    let mut f = vec![];
+    f.extend_from_slice(&dst);
+    f.extend_from_slice(&src);
+    if let Some(tci) = vlan {
+        f.extend_from_slice(&[0x81, 0x00, (tci >> 8) as u8, tci as u8]);
+    }
+    f.extend_from_slice(&[0x08, 0x00]);
+    f.extend_from_slice(payload);
+    f
+}
+
+/// A minimal IPv4 packet with given addresses
+pub fn ipv4_packet(src: [u8; 4], dst: [u8; 4], payload: &[u8]) -> Vec<u8> {
+    let mut p = vec![0x45, 0, 0, 0, 0, 0, 0, 0, 64, 17, 0, 0];
+    p.extend_from_slice(&src);
+    p.extend_from_slice(&dst);
+    p.extend_from_slice(payload);
+    let total = p.len() as u16;
+    p[2] = (total >> 8) as u8;
+    p[3] = total as u8;
+    p
+}
